@@ -347,7 +347,19 @@ int kx_net_dispatch(char **tok, int ntok, int *handled) {
 	if (is("sign")) { /* sign <c> <s> <imprint> [lvl=n] [api=create|aggregated] */
 		KSI_CTX *c = kx_ctx(atoi(tok[1])); int rc; KSI_DataHash *h = hash_arg(c, tok[3], &rc); KSI_Signature *s = NULL; KSI_Signature **slot = kx_sigslot(atoi(tok[2])); const char *api = kx_kv("api");
 		if (!h) { kx_out(" stage=hash"); return rc; }
-		if (api && !strcmp(api, "create")) rc = KSI_createSignature(c, h, &s); else rc = KSI_Signature_signAggregated(c, h, kx_kvu("lvl", 0), &s);
+		if (api && !strcmp(api, "create")) rc = KSI_createSignature(c, h, &s);
+		else if (kx_kv("ctxdoc")) {
+			/* ctxdoc=<imprint>|-: KSI_Signature_signAggregatedWithPolicy with a caller context that was used before: it still holds the document hash
+			 * (and level 0) of an earlier verification ('-': an initialised, otherwise empty context) */
+			KSI_VerificationContext vc; KSI_DataHash *old = NULL; int rc0 = KSI_OK;
+			if (KSI_VerificationContext_init(&vc, c) != KSI_OK) { KSI_DataHash_free(h); return -3; }
+			if (strcmp(kx_kv("ctxdoc"), "-")) { old = hash_arg(c, kx_kv("ctxdoc"), &rc0); if (!old) { KSI_DataHash_free(h); kx_out(" stage=ctxdoc"); return rc0; } }
+			vc.documentHash = old; vc.docAggrLevel = 0;
+			rc = KSI_Signature_signAggregatedWithPolicy(c, h, kx_kvu("lvl", 0), KSI_VERIFICATION_POLICY_INTERNAL, &vc, &s);
+			if (vc.documentHash != old || vc.signature != NULL) kx_out(" vcdirty=1");
+			vc.documentHash = NULL; vc.signature = NULL; KSI_VerificationContext_clean(&vc); KSI_DataHash_free(old);
+		}
+		else rc = KSI_Signature_signAggregated(c, h, kx_kvu("lvl", 0), &s);
 		KSI_DataHash_free(h);
 		if (rc != KSI_OK) out_ksi_err(c);
 		if (rc != KSI_OK && s) kx_out(" objonerr=1");
